@@ -50,6 +50,11 @@ class R(object):
         return ["M", [self.fn, x] + a, True]
 
 
+def log(t0, msg):
+    if os.environ.get("VERIF_VERBOSE"):
+        sys.stderr.write("[c15 %6.1fs] %s\n" % (time.time() - t0, msg))
+
+
 def flavors(kind, op):
     return ("ascii", "ucs2", "ucs4") if kind == "str" and op == "get" else ("ascii",)
 
@@ -258,6 +263,7 @@ def run(tier, seed):
         if r.violation != inv:
             sys.stderr.write(r.out[-3000:])
             core.die("SeqIndex_%s: TLC was expected to refute %s (the model's crop_slice hazard), got %r" % (nm, inv, r.violation))
+    log(t0, "TLC done: %d states" % states)
     kl = classes(printed["index"] + printed["slice"] + printed["xslice"])
     cov["model_case_classes"] = kl
     missing = [k for k in NEEDED if not kl.get(k)]
@@ -276,6 +282,7 @@ def run(tier, seed):
                             time.time() - t0, violations=len(bad))
         return rc
 
+    log(t0, "builds done")
     # ---- realisations, S vs P
     rs = []
     skipped = [0]
@@ -298,21 +305,25 @@ def run(tier, seed):
         want.append(e)
     if ndrift:
         rep.finish()   # exits 2
+    log(t0, "%d realisations, no drift" % len(rs))
 
     # ---- C: compiled code, one call table per module, chunks in parallel
+    # cells where the model reaches C undefined behaviour go into their own small tables (a crash costs a child restart)
     by_mod = {}
     for i, r in enumerate(rs):
-        by_mod.setdefault(r.mod, []).append(i)
+        by_mod.setdefault(r.mod + ("!hz" if r.desc["model"] == "ub" else ""), []).append(i)
     jobs = []
-    for mod, idxs in by_mod.items():
+    for mod, idxs in sorted(by_mod.items(), key=lambda kv: -len(kv[1])):
         for j in range(0, len(idxs), CHUNK):
             part = idxs[j:j + CHUNK]
-            jobs.append((mod, part, pool.submit(safe_run_calls, builds[mod], [rs[i].call() for i in part], "t%d" % (j // CHUNK))))
+            jobs.append((mod, part, pool.submit(safe_run_calls, builds[mod.split("!")[0]], [rs[i].call() for i in part],
+                                                ("hz%d" if "!" in mod else "t%d") % (j // CHUNK))))
     got = [None] * len(rs)
     for mod, part, f in jobs:
         for i, o in zip(part, f.result()):
             got[i] = o
     pool.shutdown()
+    log(t0, "calls done")
 
     nbad = 0
     for r, e, o in zip(rs, want, got):
